@@ -81,3 +81,24 @@ class Budget:
 
     def timed_out(self):
         return self.n < self.cases and time.time() - self.t0 > self.seconds
+
+
+def safe(fn):
+    """wrap a per-case checker: an exception escaping from it (raised by the
+    code under test inside an observation the harness did not expect to fail,
+    e.g. _to_dict() of a loaded model) becomes a first-divergence result
+    instead of killing the shard"""
+    import functools
+    import traceback
+
+    @functools.wraps(fn)
+    def wrapper(*args, **kwargs):
+        try:
+            return fn(*args, **kwargs)
+        except Exception as exc:
+            tb = traceback.extract_tb(exc.__traceback__)
+            where = next((f for f in reversed(tb) if '/maltoolbox/' in f.filename), tb[-1])
+            return ('unexpected:raised-%s-in-%s' % (type(exc).__name__, where.name),
+                    'unexpected %r at %s:%d (%s); %s' % (exc, where.filename, where.lineno, where.name,
+                                                         ' | '.join(traceback.format_exc().splitlines()[-6:])))
+    return wrapper
